@@ -24,7 +24,8 @@ pub enum Px {
 }
 
 /// strata: 0 uniform [-0.5,1.5]^3; 1 in-gamut [0,1]^3; 2 lattice {-0.5,0,0.5,1,1.5}^3;
-/// 3 near-tie (ideal code has fractional part 0.5 +- d); 4 clamp ends; 5 full-range chroma -0.5
+/// 3 near-tie (ideal code has fractional part 0.5 +- d); 4 clamp ends; 5 full-range chroma -0.5;
+/// 6 near-achromatic (a grey level plus per-component perturbations of scale 1e-7..1e-3)
 pub fn expand(c: &YuvConfig, stratum: u8, seed: u64, n: usize) -> Vec<[f32; 3]> {
     let mut e = Expand(seed);
     let mut out = Vec::with_capacity(n);
@@ -34,7 +35,12 @@ pub fn expand(c: &YuvConfig, stratum: u8, seed: u64, n: usize) -> Vec<[f32; 3]> 
     let m = c.matrix_coefficients;
     let in_dom = |p: &[f32; 3]| p.iter().all(|x| x.is_finite() && *x >= -0.5 && *x <= 1.5);
     for _ in 0..n {
-        let p: [f32; 3] = match stratum % 6 {
+        let p: [f32; 3] = match stratum % 7 {
+            6 => {
+                let g = e.range_f64(-0.1, 1.1);
+                let sc = 10f64.powf(e.range_f64(-7.0, -3.0));
+                [(g + sc * (2.0 * e.unit() - 1.0)) as f32, (g + sc * (2.0 * e.unit() - 1.0)) as f32, (g + sc * (2.0 * e.unit() - 1.0)) as f32]
+            }
             0 => [e.range_f64(-0.5, 1.5) as f32, e.range_f64(-0.5, 1.5) as f32, e.range_f64(-0.5, 1.5) as f32],
             1 => [e.unit() as f32, e.unit() as f32, e.unit() as f32],
             2 => {
@@ -104,7 +110,7 @@ pub fn strategy() -> BoxedStrategy<Case> {
         any::<bool>(),
         depth_storage(),
         any::<bool>(),
-        0u8..6,
+        0u8..7,
         any::<u64>(),
         1usize..=32,
         1usize..=8,
@@ -327,4 +333,4 @@ pub fn replay(v: &Value) -> Result<(), String> {
     check(&case, &mut Stats::new()).map_err(|v| v.message)
 }
 
-pub const RULE: &str = "cases = (matrix in 7 standard, range, depth 8..16, storage, by-ref/by-value, w x h image (1..32 x 1..8) of RGB pixels in [-0.5,1.5]^3 from 6 strata: uniform cube, in-gamut cube, 5^3 lattice, near-tie pixels (ideal code fractional part 0.5+-1e-7..1e-2, built through the oracle decoder and re-evaluated from the actual f32 values), clamp ends, full-range chroma -0.5) generated by proptest, plus an enumerated RGB lattice per config; every plane sample compared with the f64 H.273 ideal: |code - clamp(ideal)| <= 0.5 + 1e-6*2^n; output config/dims compared with the request; non-trivial = image with at least one plane ideal strictly inside (0, 2^n-1); distinct = by hash of (config, pixel bits)";
+pub const RULE: &str = "cases = (matrix in 7 standard, range, depth 8..16, storage, by-ref/by-value, w x h image (1..32 x 1..8) of RGB pixels in [-0.5,1.5]^3 from 7 strata: uniform cube, in-gamut cube, near-achromatic, 5^3 lattice, near-tie pixels (ideal code fractional part 0.5+-1e-7..1e-2, built through the oracle decoder and re-evaluated from the actual f32 values), clamp ends, full-range chroma -0.5) generated by proptest, plus an enumerated RGB lattice per config; every plane sample compared with the f64 H.273 ideal: |code - clamp(ideal)| <= 0.5 + 1e-6*2^n; output config/dims compared with the request; non-trivial = image with at least one plane ideal strictly inside (0, 2^n-1); distinct = by hash of (config, pixel bits)";
